@@ -6,7 +6,7 @@ META = {
     "property_id": "C30",
     "level": "model_checking",
     "technique": "TLA+ spec (codec/JumpDest.tla: defining scan, bit-vector fast paths set16/set8/setN as byte or/assign steps, contract-frame + code-hash cache machine) model-checked with TLC; every code of the TLC domain replayed white-box (codeBitmap, validJumpdest) and black-box (EVM JUMP via Call/Create, JumpDestCache cold/warm/fresh); every edge of the cache machine replayed as a path on vm.Contract; recorded random codes validated by JumpDestTrace.tla",
-    "text": "TLC enumerates every bytecode of the bounded domain (all codes up to AlphaLen over STOP/JUMPDEST/PUSH1,2,16,17,24,25,31,32 and schematic codes 5b^a PUSHn 5b^k for all alignments a, push sizes n and tails k<=34 including truncated pushes) and checks on each that the modelled bit-vector algorithm (fast paths with byte assignment) equals the defining left-to-right scan at every position and stays inside its allocation, and that in every reachable state of the frame/cache machine (NewFrame with/without code hash, Jump, Evict) the answer for every position equals the definition and the cached answer equals a fresh analysis. The expected valid/data positions of every code are executed on the real codeBitmap, on Contract.validJumpdest (no hash, hashed cold, hashed warm; LRU and map caches) and by running PUSH1 0 CALLDATALOAD JUMP ++ code in the EVM (shared cache cold/warm, fresh cache) and PUSH2 pos JUMP ++ code as initcode. All edges of a three-code shared-cache machine are replayed as paths on real frames. Random codes up to 300 bytes and push-dense codes of contract/initcode size (8192, 24576, 49152, 65536 bytes) are recorded and validated by TLC (for the large ones the accepted targets through frames and the EVM, by the one-pass form of the definition, ValidSet, which TLC proves equal to the scan on the bounded domain).",
+    "text": "TLC enumerates every bytecode of the bounded domain (all codes up to AlphaLen over STOP/JUMPDEST/PUSH1,2,16,17,24,25,31,32 and schematic codes 5b^a PUSHn 5b^k for all alignments a, push sizes n and tails k<=34 including truncated pushes) and checks on each that the modelled bit-vector algorithm (fast paths with byte assignment) equals the defining left-to-right scan at every position and stays inside its allocation, and that in every reachable state of the frame/cache machine (NewFrame with/without code hash, Jump, Evict) the answer for every position equals the definition and the cached answer equals a fresh analysis. The expected valid/data positions of every code are executed on the real codeBitmap, on Contract.validJumpdest (no hash, hashed cold, hashed warm; LRU and map caches) and by running PUSH1 0 CALLDATALOAD JUMP ++ code in the EVM (shared cache cold/warm, fresh cache; also through a taken JUMPI) and PUSH2 pos JUMP ++ code as initcode. All edges of a three-code shared-cache machine are replayed as paths on real frames. Random codes up to 300 bytes and push-dense codes of contract/initcode size (8192, 24576, 49152, 65536 bytes) are recorded and validated by TLC (for the large ones the accepted targets through frames and the EVM, by the one-pass form of the definition, ValidSet, which TLC proves equal to the scan on the bounded domain).",
     "note": "Bounded code length/alphabet for the exhaustive part; hash collisions excluded (hash modelled injective); EOF containers not modelled; the black-box oracle (no error = jump taken) is used only on codes whose instruction stream is STOP/JUMPDEST/PUSHn. Unexported functions reached through core/vm/verif_export_codec.go (tag verif, thin wrappers).",
     "design_ref": "3.1 C30",
 }
